@@ -20,12 +20,12 @@ ASSUMPTIONS = [
     "depth-bounded: <= 3 chunks, <= 2 fields per chunk, <= 2 surplus reads",
 ]
 
-FIXED = [("char", 0), ("char", 252), ("short", 253), ("short", P2 - 1), ("three", P3 - 1), ("int", 0), ("int", P4 - 1),
+FIXED = [("byte", 254), ("char", 0), ("char", 252), ("short", 253), ("short", P2 - 1), ("three", P3 - 1), ("int", 0), ("int", P4 - 1),
          ("fstr", "ab"), ("fstr", "aÿ"), ("fstr", "ÿÿ")]
 TRAIL = [("str", ""), ("str", "a"), ("str", "ÿ"), ("str", "ÿes"), ("str", "aÿ"), ("str", "Ā"),
          ("estr", ""), ("estr", "a"), ("estr", "ÿ"), ("estr", "ÿa")]
-SURPLUS = ("get_char", "get_int", "get_string", "get_fixed_string2", "get_short", "get_encoded_string")
-SURPLUS_RED = ("get_int", "get_string")
+SURPLUS = ("get_char", "get_int", "get_string", "get_fixed_string2", "get_short", "get_encoded_string", "get_byte", "get_bytes2", "get_three")
+SURPLUS_RED = ("get_int", "get_string", "get_byte")
 
 
 def image(s):
@@ -59,7 +59,7 @@ def write_chunks(chunks):
         if i:
             w.add_byte(0xFF)
         for kind, v in chunk:
-            if kind in ("char", "short", "three", "int"):
+            if kind in ("byte", "char", "short", "three", "int"):
                 getattr(w, "add_" + kind)(v)
             elif kind == "fstr":
                 w.add_fixed_string(v, 2)
@@ -71,7 +71,7 @@ def write_chunks(chunks):
 
 
 def _read_field(r, kind):
-    if kind in ("char", "short", "three", "int"):
+    if kind in ("byte", "char", "short", "three", "int"):
         return getattr(r, "get_" + kind)()
     if kind == "fstr":
         return r.get_fixed_string(2)
@@ -83,11 +83,15 @@ def _read_field(r, kind):
 def _surplus(r, name):
     if name == "get_fixed_string2":
         return r.get_fixed_string(2)
+    if name == "get_bytes2":
+        return bytes(r.get_bytes(2))
     return getattr(r, name)()
 
 
-def run_case(chunks, plans):
-    """chunks: list of field tuples; plans: one (prefix_len, surplus ops) per chunk."""
+def run_case(chunks, plans, via_slice=0):
+    """chunks: list of field tuples; plans: one (prefix_len, surplus ops) per chunk.
+    via_slice: 0 = read directly; 1 = read everything through parent.slice() taken while the parent is in chunked mode;
+    2 = read chunk 0 on the parent, next_chunk, then read the rest through parent.slice()."""
     R = loader.lib("eolib.data.eo_reader").EoReader
     try:
         data = write_chunks(chunks)
@@ -98,7 +102,16 @@ def run_case(chunks, plans):
     try:
         r = R(data)
         r.chunked_reading_mode = True
+        if via_slice == 1:
+            r = r.slice()
+            r.chunked_reading_mode = True
+            data = data  # the slice starts at the parent's position 0 and must cover all the data
         for ci, (chunk, (k, sur)) in enumerate(zip(chunks, plans)):
+            if via_slice == 2 and ci == 1:
+                base = r.position
+                r = r.slice()
+                r.chunked_reading_mode = True
+                data = data[base:]
             for fi in range(k):
                 kind, v = chunk[fi]
                 got = _read_field(r, kind)
@@ -107,7 +120,7 @@ def run_case(chunks, plans):
                     return f"chunk {ci} field {fi} ({kind}) read {got!r}, written {exp!r} (data {data.hex()})"
             for name in sur:
                 got = _surplus(r, name)
-                if k == len(chunk) and got not in (0, ""):
+                if k == len(chunk) and got not in (0, "", b""):
                     return f"chunk {ci}: surplus {name} after all fields returned {got!r} (data {data.hex()})"
             # no property reads between the plan's reads and next_chunk(): an observation must not perturb the reader
             r.next_chunk()
@@ -129,6 +142,12 @@ def _shard(shard):
             w = run_case(chunks, plans)
             if w and len(bad) < 3:
                 bad.append(({"chunks": [list(map(list, c)) for c in chunks], "plans": [[k, list(s)] for k, s in plans]}, w))
+            if len(chunks) == 3:
+                for via in (1, 2):
+                    count += 1
+                    w = run_case(chunks, plans, via)
+                    if w and len(bad) < 3:
+                        bad.append(({"chunks": [list(map(list, c)) for c in chunks], "plans": [[k, list(s)] for k, s in plans], "via_slice": via}, f"(reading through a slice, variant {via}) {w}"))
     return count, len(lists), bad
 
 
@@ -193,7 +212,7 @@ def run(tier, seed):
         "1 chunk over all contents, 2 chunks over full x reduced contents, 3 chunks over reduced contents; every plan = per "
         "chunk every prefix length x every sequence of <=2 surplus reads, then next_chunk; in-prefix reads must equal the "
         "written (sanitised cp1252) values, surplus reads after a complete prefix must be 0/empty, the output contains "
-        "exactly chunks-1 break bytes; plus a length ladder: strings of 8..300 characters containing a y-diaeresis in the first of three chunks",
+        "exactly chunks-1 break bytes; three-chunk lists are also read through parent.slice() (taken at the start / after the first chunk); plus a length ladder: strings of 8..300 characters containing a y-diaeresis in the first of three chunks",
         "samples": [{"chunks": [[["char", 252], ["str", "ÿ"]], [], [["int", P4 - 1]]], "plans": [[1, ["get_int"]], [0, ["get_string"]], [1, []]]}],
     }
     return {"coverage": coverage, "violations": violations}
@@ -203,4 +222,4 @@ def replay(case):
     loader.install_shims()
     chunks = [tuple((k, v) for k, v in c) for c in case["chunks"]]
     plans = [(int(k), tuple(s)) for k, s in case["plans"]]
-    return run_case(chunks, plans)
+    return run_case(chunks, plans, int(case.get("via_slice", 0)))
